@@ -126,7 +126,9 @@ func (self *Interpreter) listLiteral(node ast.AnalyzedListLiteralExpression) (*v
 		if i != nil {
 			return nil, i
 		}
-		values = append(values, val)
+		// Store a copy: the element must not alias the variable the value came from
+		elem := *val
+		values = append(values, &elem)
 	}
 
 	return value.NewValueList(values), nil
@@ -151,7 +153,9 @@ func (self *Interpreter) objectLiteral(node ast.AnalyzedObjectLiteralExpression)
 		if i != nil {
 			return nil, i
 		}
-		fields[field.Key.Ident()] = fieldValue
+		// Store a copy: the field must not alias the variable the value came from
+		fieldCopy := *fieldValue
+		fields[field.Key.Ident()] = &fieldCopy
 	}
 	return value.NewValueObject(fields), nil
 }
